@@ -39,6 +39,10 @@ theorem c01_c09_c11_ipdb_lock_discipline :
     ipdbLockedMethods = "AddPermanentClient,DisableDynamic,FindIP,LookupClientByDuid,SetDynamicRange,UpdateClient" ∧
     ipdbUnlockedMethods = "InManagedRange" ∧ ipdbUnlockedReadOnly = true := by decide
 
+/-- The clock of a database call is read while the lock is held: the reservation a grant advertises
+starts when the call takes effect, not before it waited for the lock. -/
+theorem c01_c05_c07_clock_read_under_lock : ipdbClockReadUnderLock = true := by decide
+
 /-- One goroutine per packet with a by-value message whose option payloads do not alias a buffer
 the receive loop reuses. -/
 theorem c09_handler_isolation : runHandsMessageByValue = true ∧ runBufferFreshPerPacket = true := by decide
